@@ -424,11 +424,20 @@ class QvmCpu:
         if not self.error_handler_active and \
            self.trap_target is not None:
             if self.trap_target == 'next':
-                self._exec_errresn()
+                try:
+                    self._exec_errresn()
+                    return
+                except Trapped as e:
+                    # cannot resume (no debug info, no statement at the
+                    # failing address): report that instead
+                    code = e.trap_code
+                    kwargs = e.trap_kwargs
+                    self.last_trap = code
+                    self.last_trap_kwargs = kwargs
             else:
                 self.pc = self.trap_target
                 self.error_handler_active = True
-            return
+                return
 
         if code == TrapCode.INVALID_OP_CODE:
             op_code = kwargs['op_code']
